@@ -19,10 +19,10 @@ Notation enum := (enum lit re_search tm o).
 (* a hit produced by the container [tgt] itself for its child reference [r] *)
 Definition local (tgt : node) (r : ref) (k : hkind) : Prop :=
   match k with
-  | HValue => o_values o = true /\ exists i v, child_at tgt r (NLeaf i v) /\ satb v = true
+  | HValue => o_values o = true /\ exists i v, child_at tgt r (NLeaf i v) /\ satb (NLeaf i v) = true
   | HKey => o_keys o = true /\
-            exists i kvs kn v, tgt = NMap i kvs /\ In (kn, v) kvs /\ r = key_ref kn /\ satb (key_val kn) = true
-  | HMember => exists i els m, tgt = NSet i els /\ In m els /\ r = member_ref m /\ satb (key_val m) = true
+            exists i kvs kn v, tgt = NMap i kvs /\ In (kn, v) kvs /\ r = key_ref kn /\ satb kn = true
+  | HMember => exists i els m, tgt = NSet i els /\ In m els /\ r = member_ref m /\ satb m = true
   | _ => False
   end.
 
@@ -52,7 +52,7 @@ Proof.
   - destruct (IH _ _ _ Hin) as [l' [-> G]]. exists (r :: l'). rewrite <- app_assoc. split; [reflexivity|].
     eapply good_step; eauto.
   - destruct (o_values o) eqn:Ev; simpl in Hin; [|contradiction].
-    destruct (satb (key_val c)) eqn:Es; simpl in Hin; [|contradiction].
+    destruct (satb c) eqn:Es; simpl in Hin; [|contradiction].
     destruct Hin as [Hin|[]]. inversion Hin; subst. exists [r]. split; [reflexivity|].
     destruct (not_container_leaf _ Ec) as [i [x ->]]. simpl in Es.
     exists [], n, r. split; [reflexivity|]. split; [constructor|].
@@ -68,7 +68,7 @@ Proof.
     pose proof (nth_error_In _ _ Hn) as HIn.
     assert (Hc : child_at (NMap i kvs) (key_ref kn) v) by (constructor; auto).
     unfold entry_enum in Hin. simpl fst in Hin. simpl snd in Hin.
-    destruct (o_keys o && satb (key_val kn)) eqn:Ek.
+    destruct (o_keys o && satb kn) eqn:Ek.
     + unfold key_hit_enum in Hin. rewrite Hnx in Hin.
       destruct Hin as [Hin|[]]. inversion Hin; subst. exists [key_ref kn]. split; [reflexivity|].
       apply andb_true_iff in Ek. destruct Ek.
@@ -82,7 +82,7 @@ Proof.
     eapply val_enum_sound; eauto. constructor; auto.
   - apply In_floop in Hin. destruct Hin as [j [m [Hn Hin]]].
     pose proof (nth_error_In _ _ Hn) as HIn.
-    unfold member_enum in Hin. destruct (satb (key_val m)) eqn:Es; [|contradiction].
+    unfold member_enum in Hin. destruct (satb m) eqn:Es; [|contradiction].
     destruct Hin as [Hin|[]]. inversion Hin; subst. exists [member_ref m]. split; [reflexivity|].
     exists [], (NSet i els), (member_ref m). split; [reflexivity|]. split; [constructor|].
     simpl. exists i, els, m. auto.
@@ -98,7 +98,7 @@ Lemma In_nth {A} (l : list A) a : In a l -> exists j, nth_error l j = Some a.
 Proof. apply In_nth_error. Qed.
 
 Lemma key_hit_covers i kvs kn v lc l k :
-  In (kn, v) kvs -> o_keys o && satb (key_val kn) = true ->
+  In (kn, v) kvs -> o_keys o && satb kn = true ->
   covered (NMap i kvs) lc (key_ref kn :: l) k.
 Proof.
   intros Hin Ek. destruct (In_nth _ _ Hin) as [j Hn].
@@ -117,7 +117,7 @@ Proof.
     eapply key_hit_covers; eauto. rewrite Hk, Hs. reflexivity.
   - (* HValue *)
     intros [Hv [i [v [Hc Hs]]]]. inversion Hc; subst.
-    + destruct (o_keys o && satb (key_val k)) eqn:Ek.
+    + destruct (o_keys o && satb k) eqn:Ek.
       * eapply key_hit_covers; eauto.
       * destruct (In_nth _ _ H) as [j Hn].
         exists (lc ++ [key_ref k])%list, HValue, [key_ref k]. split.
@@ -161,7 +161,7 @@ Proof.
   - apply local_covered; auto.
   - simpl. inversion Hc; subst.
     + (* through a mapping entry *)
-      destruct (o_keys o && satb (key_val k0)) eqn:Ek; [eapply key_hit_covers; eauto|].
+      destruct (o_keys o && satb k0) eqn:Ek; [eapply key_hit_covers; eauto|].
       destruct (is_container c) eqn:Ec.
       * eapply covered_lift; [|apply IH; auto].
         intros l1 k1 Hin. destruct (In_nth _ _ H) as [j Hn]. simpl. apply In_floop.
@@ -229,7 +229,7 @@ Lemma val_enum_locs_prefix c lc r l :
 Proof.
   unfold val_enum. destruct (is_container c).
   - intros H. destruct (enum_prefix _ _ _ H) as [r0 [s ->]]. rewrite <- app_assoc. simpl. eauto.
-  - destruct (o_values o && satb (key_val c)); simpl; [|tauto].
+  - destruct (o_values o && satb c); simpl; [|tauto].
     intros [<-|[]]. exists []. reflexivity.
 Qed.
 
@@ -237,7 +237,7 @@ Lemma entry_enum_locs_prefix kv lc l :
   In l (locs (entry_enum lit re_search tm o (fun v l => enum v l) lc kv)) ->
   exists s, l = (lc ++ key_ref (fst kv) :: s)%list.
 Proof.
-  unfold entry_enum, key_hit_enum. rewrite Hnx. destruct (o_keys o && satb (key_val (fst kv))).
+  unfold entry_enum, key_hit_enum. rewrite Hnx. destruct (o_keys o && satb (fst kv)).
   - simpl. intros [<-|[]]. exists []. reflexivity.
   - apply val_enum_locs_prefix.
 Qed.
@@ -269,7 +269,7 @@ Lemma val_enum_nodup c lc :
   NoDup (locs (val_enum lit re_search tm o (fun v l => enum v l) c lc)).
 Proof.
   intros H. unfold val_enum. destruct (is_container c); auto.
-  destruct (o_values o && satb (key_val c)); simpl; repeat constructor; auto.
+  destruct (o_values o && satb c); simpl; repeat constructor; auto.
 Qed.
 
 Theorem enum_nodup n : nodup_keys n -> forall lc, NoDup (locs (enum n lc)).
@@ -279,7 +279,7 @@ Proof.
   - rewrite locs_floop. apply NoDup_floop.
     + intros j kv Hj. pose proof (nth_error_In _ _ Hj) as Hin.
       unfold entry_enum, key_hit_enum. rewrite Hnx.
-      destruct (o_keys o && satb (key_val (fst kv))); [simpl; repeat constructor; auto|].
+      destruct (o_keys o && satb (fst kv)); [simpl; repeat constructor; auto|].
       apply val_enum_nodup. intros lc'. rewrite Forall_forall in IH. apply (IH _ Hin).
       eapply nodup_keys_map_children; eauto.
     + intros j1 j2 a1 a2 x Hne H1 H2 Hx1 Hx2.
@@ -297,10 +297,10 @@ Proof.
       destruct (val_enum_locs_prefix _ _ _ _ Hx2) as [s2 E2].
       rewrite E1 in E2. apply app_inv_head in E2. inversion E2. lia.
   - rewrite locs_floop. apply NoDup_floop.
-    + intros j m Hj. unfold member_enum. destruct (satb (key_val m)); simpl; repeat constructor; auto.
+    + intros j m Hj. unfold member_enum. destruct (satb m); simpl; repeat constructor; auto.
     + intros j1 j2 a1 a2 x Hne H1 H2 Hx1 Hx2. unfold member_enum in *.
-      destruct (satb (key_val a1)); simpl in Hx1; [|contradiction].
-      destruct (satb (key_val a2)); simpl in Hx2; [|contradiction].
+      destruct (satb a1); simpl in Hx1; [|contradiction].
+      destruct (satb a2); simpl in Hx2; [|contradiction].
       destruct Hx1 as [<-|[]]. destruct Hx2 as [Hx2|[]].
       apply app_inv_head in Hx2. unfold member_ref in Hx2. injection Hx2 as Ek.
       apply Hne. simpl in Hn. eapply (NoDup_map_nth key_val); eauto.
